@@ -259,6 +259,11 @@ func (c *Client) validateVirtualChannelFundingProposal(
 	}
 
 	// Validate signatures.
+	numParts := len(prop.Initial.Params.Parts)
+	if len(prop.Initial.Sigs) != numParts || prop.Initial.State.NumParts() != numParts {
+		return errors.New("number of signatures or balances does not match the parameters")
+	}
+
 	for i, sig := range prop.Initial.Sigs {
 		for _, part := range prop.Initial.Params.Parts[i] {
 			ok, err := channel.Verify(
@@ -277,6 +282,11 @@ func (c *Client) validateVirtualChannelFundingProposal(
 	// Validate index map.
 	if len(prop.Initial.Params.Parts) != len(prop.IndexMap) {
 		return errors.New("index map: invalid length")
+	}
+	for _, idx := range prop.IndexMap {
+		if int(idx) >= ch.state().NumParts() {
+			return errors.New("index map: invalid entry")
+		}
 	}
 
 	// Assert not contained before
